@@ -20,7 +20,9 @@ Model: `Stream.compactWith` / `compactInterleaved` and `Stream.recover` (M4) ove
   (`GcSafe`, decidable) no other listed segment holds that key.
 * kernel-checked counterexamples for every excluded case: `equal_times_counterexample`,
   `expiry_some_then_none_counterexample`, `hash_two_replicas_counterexample`,
-  `production_clock_counterexample`, `older_value_in_skipped_segment_counterexample` (also for
+  `production_clock_counterexample`, `dropped_tombstone_expiry_counterexample`,
+  `dropped_tombstone_vclock_counterexample`,
+  `older_value_in_skipped_segment_counterexample` (also for
   the current compactor: known finding), `flush_interleaving_counterexample` (also for the
   current compactor: known finding).  The keep-latest counterexamples are fixed defects.
 -/
@@ -110,7 +112,7 @@ theorem compaction_preserves_recovery_partial (cfg : CompactCfg) (sz : Nat) (w :
     states agree key by key, except that a key whose merged value was a tombstone below the
     cutoff may be absent afterwards (it reads as deleted before and after).  Missing for the
     full statement: `GcSafe` is not established by the code (`older_value_in_skipped_segment_
-    counterexample`), and the cutoff the code computes is not in Lamport units
+    counterexample`, `dropped_tombstone_expiry_counterexample` — both layouts violate `GcSafe`), and the cutoff the code computes is not in Lamport units
     (`production_clock_counterexample`). -/
 theorem tombstone_gc_safe_partial (F : Oracle) (cfg : CompactCfg) (sz : Nat) (w : World)
     (hinv : StoreInv w.store) (hc : Coherent (content w.store)) (hsafe : GcSafe w.store cfg) (k : Nat) :
@@ -244,6 +246,49 @@ theorem older_value_in_skipped_segment_counterexample :
       = some [(116, lww 120 3 1), (117, lww 1 6 1)] ∧
     (recState (compactWith repairedCompact allOk { cfgAll with cutoff := 100 } 100 (after gcOps)).1.store 1).map visible
       = some [(116, lww 120 3 1), (117, lww 1 6 1)] := by
+  decide
+
+/-- key 107: `SET … PX 2000` at time 5 and its `DEL` at time 6 (a delete keeps the value's
+    `expiry_ms`) in two small segments; a newer `SET` without expiry at time 8 in a segment over
+    the size target (never selected) -/
+def gcExpiryOps : List Op :=
+  [.push (107, { lww 13 5 1 with expiry := some 2000 }), .flush 100,
+   .push (107, { tomb 6 1 with expiry := some 2000 }), .flush 100,
+   .push (107, lww 16 8 1), .flush 5000]
+
+/-- **Known finding C13:tombstone-gc:expiry-of-dropped-tombstone.**  Merge keeps the maximum /
+    the present expiry (C06's expiry-merge semantics), so the tombstone at time 6 contributes
+    `expiry = 2000` to the merged value although the newer write wins the register.  Dropping the
+    tombstone (it is below the cutoff) removes that contribution: the recovered value is the
+    same, its expiry changes from `Some 2000` to `None`.  Same root as the other GC findings — the
+    key lives on in a segment outside the compaction, which `GcSafe` excludes — and the current
+    (merge-instead-of-latest) compactor has it. -/
+theorem dropped_tombstone_expiry_counterexample :
+    recState (after gcExpiryOps).store 1 = some [(107, { lww 16 8 1 with expiry := some 2000 })] ∧
+    recState (compactWith repairedCompact allOk { cfgAll with cutoff := 100 } 100 (after gcExpiryOps)).1.store 1
+      = some [(107, lww 16 8 1)] ∧
+    (compactWith repairedCompact allOk { cfgAll with cutoff := 100 } 100 (after gcExpiryOps)).2 = .emptied [0, 1] 1 ∧
+    Coherent (content (after gcExpiryOps).store) ∧
+    ¬ GcSafe (after gcExpiryOps).store { cfgAll with cutoff := 100 } := by
+  decide
+
+/-- Causal mode, two replicas: r1 writes key 107 (vector clock {1:1}) and deletes it ({1:2}); r2's
+    concurrent newer write ({2:1}) sits in a segment over the size target -/
+def gcVclockOps : List Op :=
+  [.push (107, { lww 1 5 1 with vc := some [(1, 1)] }), .flush 100,
+   .push (107, { tomb 6 1 with vc := some [(1, 2)] }), .flush 100,
+   .push (107, { lww 2 8 2 with vc := some [(2, 1)] }), .flush 5000]
+
+/-- **Known finding C13:tombstone-gc:metadata-of-dropped-tombstone.**  The same for every other
+    merged component: the dropped tombstone is the merge of the compacted deltas of the key, and
+    with it goes what they contributed to the merged value of a newer write outside the compaction
+    — here the entry `{1:2}` of the vector clock. -/
+theorem dropped_tombstone_vclock_counterexample :
+    recState (after gcVclockOps).store 1 = some [(107, { lww 2 8 2 with vc := some [(1, 2), (2, 1)] })] ∧
+    recState (compactWith repairedCompact allOk { cfgAll with cutoff := 100 } 100 (after gcVclockOps)).1.store 1
+      = some [(107, { lww 2 8 2 with vc := some [(2, 1)] })] ∧
+    Coherent (content (after gcVclockOps).store) ∧
+    ¬ GcSafe (after gcVclockOps).store { cfgAll with cutoff := 100 } := by
   decide
 
 theorem C13_false_pinned : ¬ C13_compaction_preserves_recovery pinnedFlags := by
